@@ -100,4 +100,22 @@ theorem tokens_cstr_nameOut (labels : List Bytes)
     rw [hx, List.dropLast_concat, takeWhile_until_nul x hxn, ← tokens_append_dot, ← hx]
     exact tokens_dotted labels (fun l hl => ⟨(h l hl).1, fun c hc => ((h l hl).2 c hc).1⟩)
 
+/-- a host name as text: the labels joined by '.' (no trailing dot) -/
+def hostText (labels : List Bytes) : Bytes := (dotted labels).dropLast
+
+/-- strtok on the host text finds the labels -/
+theorem tokens_hostText (labels : List Bytes) (h : ∀ l ∈ labels, l ≠ [] ∧ ∀ c ∈ l, c ≠ 46) :
+    tokens (hostText labels) = labels := by
+  by_cases hl : labels = []
+  · subst hl; decide
+  · obtain ⟨x, hx⟩ := dotted_last labels hl
+    unfold hostText
+    rw [hx, List.dropLast_concat, ← tokens_append_dot, ← hx]
+    exact tokens_dotted labels h
+
+/-- a trailing dot (fully qualified form) makes no difference -/
+theorem tokens_hostText_dot (labels : List Bytes) (h : ∀ l ∈ labels, l ≠ [] ∧ ∀ c ∈ l, c ≠ 46) :
+    tokens (hostText labels ++ [46]) = labels := by
+  rw [tokens_append_dot]; exact tokens_hostText labels h
+
 end SquidModel.Dns
